@@ -28,6 +28,8 @@ INFO = {
   "undecided": [
     "qfrc_constraint = J^T * efc_force (tile reduction / sparse products)",
     "rows clamped at MJ_MINVAL (D = 1/MJ_MINVAL) are outside REL",
+    "elliptic cone membership for condim 6, and REL for flex contacts (constraint._efc_contact_update_flex): the nonlinear queries stay unknown",
+    "partially allocated elliptic contacts (a row address < 0 after a row overflow): the kernel then leaves the row untouched",
   ],
 }
 
@@ -38,16 +40,83 @@ def _cs(name):
   return int(getattr(enum_namespace().ConstraintState, name))
 
 
+def _all_states():
+  from wpv.consts import CONSTS
+
+  return set(CONSTS["enums"]["ConstraintState"]["members"].values())
+
+
 def g_eval(tier):
-  R = Run("solver:_eval_constraint", pre=["D > 0.0", "frictionloss >= 0.0", "TT >= 0.0", "implies(is_elliptic, mu > 0.0 and D0 > 0.0)"])
+  """the contract of _eval_constraint (the clauses callers rely on) against its body, plus the elliptic normal row"""
+  obs = eval_contract().verify(prefix="_eval_constraint", timeout_ms=30000)
+  R = Run("solver:_eval_constraint", pre=EVAL_PRE)
+  obs.append(R.obligation("_eval_constraint#elliptic_normal_nonneg", "implies(not is_equality and not is_friction and is_elliptic and efcid == efcid0 and jaref == jaref0 and D == D0, result[0] >= 0.0)", meta={"timeout_ms": 30000}))
+  return obs
+
+
+EVAL_PRE = ["D > 0.0", "frictionloss >= 0.0", "TT >= 0.0", "implies(is_elliptic, mu > 0.0 and D0 > 0.0)"]
+
+
+def eval_contract():
+  from wpv.contracts import FuncContract
+
   SAT = float(_cs("SATISFIED"))
-  obs = [canary(R, "_eval_constraint#canary")]
-  o = R.obligation
-  obs.append(o("_eval_constraint#friction_bound", "implies(not is_equality and is_friction, result[0] <= frictionloss and -frictionloss <= result[0])"))
-  obs.append(o("_eval_constraint#unilateral_nonneg", "implies(not is_equality and not is_friction and not is_elliptic, result[0] >= 0.0)"))
-  obs.append(o("_eval_constraint#satisfied_zero", f"implies(result[1] == {SAT}, result[0] == 0.0)"))
-  obs.append(o("_eval_constraint#elliptic_normal_nonneg", "implies(not is_equality and not is_friction and is_elliptic and efcid == efcid0 and jaref == jaref0 and D == D0, result[0] >= 0.0)", meta={"timeout_ms": 30000}))
-  obs.append(o("_eval_constraint#equality_linear", "implies(is_equality, result[0] == -D * jaref)"))
+  return FuncContract(
+    "solver:_eval_constraint",
+    requires=EVAL_PRE,
+    ensures=[
+      "implies(not is_equality and is_friction, result[0] <= frictionloss and -frictionloss <= result[0])",
+      "implies(not is_equality and not is_friction and not is_elliptic, result[0] >= 0.0)",
+      f"implies(result[1] == {SAT}, result[0] == 0.0)",
+      "implies(is_equality, result[0] == -D * jaref)",
+      # the second component is exactly one of the ConstraintState codes (the kernel converts it with int())
+      " or ".join(f"result[1] == {float(v)}" for v in sorted(_all_states())),
+    ],
+  )
+
+
+def g_kernel(tier):
+  """(K) the real kernel stores, for every live row of a world that is still solving, the value of
+  _eval_constraint called with the row classification by position (equality < friction < rest); through the
+  callee's contract: friction-loss rows are bounded by their friction loss, limit / frictionless / pyramidal rows
+  are non-negative, a SATISFIED row carries zero force."""
+  key = "solver:_update_constraint_efc.kernel"
+  info = extract.get_func(key)
+  obs = []
+  ELL = int(getattr(__import__("wpv.consts", fromlist=["x"]).enum_namespace().ConstraintType, "CONTACT_ELLIPTIC"))
+  SAT = _cs("SATISFIED")
+  for cl in census.specialisations(info):
+    lab = census.spec_label(cl)
+    C = eval_contract()
+    R = Run(
+      key,
+      closure={k: v for k, v in cl.items() if k != "$label"},
+      contracts={"solver:_eval_constraint": C},
+      invariants={(key, 0): ["TT >= 0.0"]},
+      pre=[
+        # row data produced by make_constraint (C05: D = 1/max(.., MJ_MINVAL) > 0, friction loss >= 0) and model
+        # well-formedness (friction coefficients and impratio > 0); rows ordered equality < friction < the rest
+        "efc_D_in[tid0, tid1] > 0.0",
+        "efc_frictionloss_in[tid0, tid1] >= 0.0",
+        "ne_in[tid0] >= 0 and nf_in[tid0] >= 0",
+        "efc_D_in[tid0, contact_efc_address_in[efc_id_in[tid0, tid1], 0]] > 0.0",
+        "contact_friction_in[efc_id_in[tid0, tid1]][0] > 0.0",
+        "opt_impratio_invsqrt[tid0 % opt_impratio_invsqrt.shape[0]] > 0.0",
+        # contact rows come after the equality and friction-loss rows (C05 ordering)
+        f"implies(tid1 < ne_in[tid0] + nf_in[tid0], efc_type_in[tid0, tid1] != {ELL})",
+      ],
+    )
+    tag = f"_update_constraint_efc[{lab}]"
+    obs.append(canary(R, f"{tag}#canary", hints="auto"))
+    for o in R.side_obligations(tag + "#"):
+      o.meta["goal"] = "precondition of _eval_constraint at its call site / loop invariant TT >= 0"
+      obs.append(o)
+    live = "not ctx_done_in[tid0] and tid1 < nefc_in[tid0]"
+    F = "efc_force_out[tid0, tid1]"
+    obs.append(R.obligation(f"{tag}#friction_loss_bound", f"implies({live} and ne_in[tid0] <= tid1 and tid1 < ne_in[tid0] + nf_in[tid0], {F} <= efc_frictionloss_in[tid0, tid1] and -efc_frictionloss_in[tid0, tid1] <= {F})", meta={"goal": "friction-loss rows: |force| <= frictionloss"}))
+    obs.append(R.obligation(f"{tag}#unilateral_nonneg", f"implies({live} and tid1 >= ne_in[tid0] + nf_in[tid0] and efc_type_in[tid0, tid1] != {ELL}, {F} >= 0.0)", meta={"goal": "limit, frictionless and pyramidal rows: force >= 0"}))
+    obs.append(R.obligation(f"{tag}#satisfied_zero", f"implies({live} and efc_state_out[tid0, tid1] == {SAT} and efc_type_in[tid0, tid1] != {ELL}, {F} == 0.0)", meta={"goal": "a non-elliptic row in state SATISFIED carries zero force (elliptic rows: top zone of the cone group)"}))
+    obs.append(Result(oid=f"{tag}#uses_eval_contract", status="discharged" if C.uses == 1 else "violated", kind="contract", func=key, backend="analysis", meta={"function": key, "goal": "force and state come from one call of _eval_constraint (the function under contract)", "calls": C.uses}))
   return obs
 
 
@@ -208,9 +277,10 @@ def g_rel(key):
 
 
 def groups(tier):
-  gs = [("eval", g_eval)]
-  for K in (3, 4, 6):
+  gs = [("eval", g_eval), ("kernel", g_kernel)]
+  # condim 6 (torsional + rolling friction): the cone obligations stay unknown in the nonlinear solver after 25 min;
+  # the flex twin of REL likewise -- both are listed under INFO["undecided"], not claimed
+  for K in (3, 4):
     gs.append((f"cone[{K}]", g_cone(K)))
   gs.append(("rel", g_rel("constraint:_efc_contact_update.kernel")))
-  gs.append(("rel_flex", g_rel("constraint:_efc_contact_update_flex.kernel")))
   return gs
